@@ -14,7 +14,7 @@
 From Coq Require Import ZArith NArith List Bool Arith.
 From Falcon.lib Require Import PyStr.
 Import ListNotations.
-Open Scope N_scope.
+Local Open Scope N_scope.
 
 Inductive jv : Type :=
 | JNull
